@@ -139,6 +139,7 @@ def run(ctx):
     rebind(ctx)
     rebind_order(ctx)
     inference_programs(ctx)
+    noncopy_programs(ctx)
     from .. import macrolint, facts as _facts
     macrolint.hygiene_rule(ctx, ["opt_unwrap", "opt_unwrap_or", "opt_unwrap_or_else", "opt_ok_or", "opt_ok_or_else", "opt_map", "opt_and_then",
                                  "opt_or_else", "opt_flatten", "opt_filter", "res_unwrap_or", "res_unwrap_or_else", "res_unwrap_err_or_else",
@@ -160,6 +161,26 @@ INFER_PROGS = [
     ("unwrap_or!/untyped", "pub const M: u8 = konst::option::unwrap_or!(Some(3u8), 5);"),
     ("result::unwrap_or!/untyped", "pub const M: u8 = konst::result::unwrap_or!(Ok::<u8, ()>(3), 5);"),
 ]
+
+
+def noncopy_programs(ctx):
+    """ACC-NONCOPY: every option::/result:: macro form with the payload and error types replaced by types that are neither Copy nor
+    Clone must still compile - the std methods they mirror move their payloads and have no such bound (the decision tables above run on
+    `u8` payloads, for which a stray copy is invisible)"""
+    import re as _re
+
+    def nc(src):
+        return _re.sub(r"\bu16\b", "NC16", _re.sub(r"\bu8\b", "NC8", src))
+    pre = "#![allow(unused, unreachable_code)]\npub struct NC8(pub u32);\npub struct NC16(pub u64);\n" + nc(PRELUDE.replace("#![allow(unused, unreachable_code, clippy::all)]", ""))
+    items = [(n, s_) for n, (s_, _) in SPECS.items() if n != "o_copied"] + list(FILTER.items())
+    progs = [(n, pre + nc(s_) + "\n") for n, s_ in items]
+    res_ = facts.compile_many(progs, ctx.th)
+    for (n, src), r in zip(progs, res_):
+        if not r["ok"]:
+            ctx.violation("ACC-NONCOPY", n, "%s with a non-Copy payload no longer compiles (%s): the std method has no Copy/Clone bound" % (
+                n, "; ".join("%s %s" % (e["code"], e["message"][:90]) for e in r["errors"][:2])), detail={"program": src.split("\n")[-2]})
+        ctx.instance("ACC-NONCOPY", n, sample={"witness": n, "accepted": r["ok"]})
+    ctx.floor("ACC-NONCOPY", len(progs))
 
 
 def inference_programs(ctx):
